@@ -259,6 +259,8 @@ func Diamond(sh PkgOnlyShape) *prog.Program {
 var wantRe = regexp.MustCompile(`// want ([A-Z0-9,]+)\s*$`)
 
 // Wants extracts the expected "file:line:code" keys of one package (or all when pkg == "").
+var wantAtRe = regexp.MustCompile(`// wantat (\S+):(\d+) ([A-Z]+[0-9]+)`)
+
 func Wants(p *prog.Program, pkg string) []string {
 	var out []string
 	for _, pk := range p.Pkgs {
@@ -277,6 +279,10 @@ func Wants(p *prog.Program, pkg string) []string {
 					for _, c := range strings.Split(m[1], ",") {
 						out = append(out, fmt.Sprintf("%s/%s:%d:%s", dir, f.Name, i+1, c))
 					}
+				}
+				// a diagnostic whose position a //line directive moves: "// wantat <file>:<line> CODE"
+				if m := wantAtRe.FindStringSubmatch(l); m != nil {
+					out = append(out, fmt.Sprintf("%s/%s:%s:%s", dir, m[1], m[2], m[3]))
 				}
 			}
 		}
@@ -459,13 +465,32 @@ func New() *` + typ + ` { return &` + typ + `{} }
 func Probe() int { return 0 }
 `}}}
 	}
-	return &prog.Program{Pkgs: []prog.Pkg{twin("alpha", "TA"), twin("omega", "TO"),
+	// meth restricts ONLY a method: no type or function of the package carries @packageonly
+	meth := prog.Pkg{Path: "ex.com/m/meth", Files: []prog.File{{Name: "a_methods.go", Src: `package meth
+
+// Do is restricted.
+// @packageonly nowhere
+func (r R) Do() {}
+
+func (r R) Free() {}
+`}, {Name: "z_types.go", Src: `package meth
+
+type R struct{}
+`}}}
+	return &prog.Program{Pkgs: []prog.Pkg{twin("alpha", "TA"), twin("omega", "TO"), meth,
 		{Path: "ex.com/m/cons", Files: []prog.File{{Name: "c.go", Src: `package cons
 
 import (
 	"ex.com/m/alpha"
+	"ex.com/m/meth"
 	"ex.com/m/omega"
 )
+
+func useMeth(r meth.R) {
+	r.Do() // want PKGO03
+	r.Free()
+	_ = r.Do // want PKGO03
+}
 
 func use(a *alpha.TA, o *omega.TO) {
 	a.Stats = 1
@@ -619,5 +644,52 @@ func Free() int { return 0 }
 		{Path: "ex.com/m/cons1", Files: []prog.File{{Name: "c.go", Src: "package cons1\n\nimport \"ex.com/m/s1/model\"\n\nfunc use() {\n" + use("model", true) + "}\n"}}},
 		{Path: "ex.com/m/cons2", Files: []prog.File{{Name: "c.go", Src: "package cons2\n\nimport \"ex.com/m/s2/model\"\n\nfunc use() {\n" + use("model", false) + "}\n"}}},
 		{Path: "ex.com/m/cons12", Files: []prog.File{{Name: "c.go", Src: "package cons12\n\nimport (\n\tm1 \"ex.com/m/s1/model\"\n\tm2 \"ex.com/m/s2/model\"\n)\n\nfunc use() {\n" + use("m2", false) + use("m1", true) + "}\n"}}},
+	}}
+}
+
+// LineDirectives: generated code whose positions are remapped by //line directives to files that
+// do not exist (no excerpt can be read for those diagnostics) next to ordinary code whose
+// excerpts can be read. What is printed for one diagnostic must not depend on which other
+// diagnostics were formatted before it.
+func LineDirectives() *prog.Program {
+	return &prog.Program{Pkgs: []prog.Pkg{
+		{Path: "ex.com/m/lib", Files: []prog.File{{Name: "lib.go", Src: `package lib
+
+// T is immutable.
+// @immutable
+// @constructor NewT
+type T struct{ F, G int }
+
+func NewT() *T { return &T{} }
+`}}},
+		{Path: "ex.com/m/app", Files: []prog.File{{Name: "app.go", Src: `package app
+
+import "ex.com/m/lib"
+
+func touch(t *lib.T) {
+	t.F = 1 // want IMM01
+	t.G++ // want IMM03
+	_ = lib.T{} // want CTOR01
+}
+`}}},
+		{Path: "ex.com/m/gen", Files: []prog.File{{Name: "gen.go", Src: `package gen
+
+import "ex.com/m/lib"
+
+func generated(t *lib.T) {
+//line grammar.y:41
+	t.F = 2 // wantat grammar.y:41 IMM01
+//line gen.go:900
+	t.G-- // wantat gen.go:900 IMM03
+}
+`}, {Name: "plain.go", Src: `package gen
+
+import "ex.com/m/lib"
+
+func plain(t *lib.T) {
+	t.F = 3 // want IMM01
+}
+`}}},
+		Unrelated(),
 	}}
 }
